@@ -34,7 +34,11 @@ def _template(tspec):
     coords = {"time": t, "frequency": f}
     if "channel" in dims:
         coords["channel"] = [0, 1]
-    return xr.DataArray(data, dims=dims, coords=coords)
+    arr = xr.DataArray(data, dims=dims, coords=coords)
+    names = tspec.get("names")
+    if names:
+        arr = arr.rename({"time": names[0], "frequency": names[1]})
+    return arr
 
 
 def _idx(coords, v):
@@ -126,6 +130,9 @@ def judge(ctx, tspec, gspecs, values, fill, dtype, all_touched_check=True):
     spec = {"kind": "raster", "template": tspec, "geoms": gspecs, "values": values, "fill": fill if not (isinstance(fill, float) and math.isnan(fill)) else "nan", "dtype": dtype}
     vals_list = values if isinstance(values, list) else [values] * len(gs)
     kw = {"values": values, "fill": fill, "dtype": np.dtype(dtype)}
+    names = tspec.get("names")
+    if names:
+        kw.update(xdim=names[0], ydim=names[1])
     ctx.mon("rasterize.calls")
     if isinstance(values, list) and len(values) != len(gs):
         try:
@@ -146,6 +153,11 @@ def judge(ctx, tspec, gspecs, values, fill, dtype, all_touched_check=True):
         return
     ctx.mon("rasterize.result")
     # axes
+    if names:
+        try:
+            res = res.rename({names[0]: "time", names[1]: "frequency"})
+        except Exception:
+            pass
     ok_axes = (set(res.dims) == {"time", "frequency"} and np.array_equal(res.coords["time"].data, t) and np.array_equal(res.coords["frequency"].data, f))
     if not ok_axes:
         ctx.violate("template_axes", "template_axes", observed={"dims": list(res.dims), "shape": list(res.shape)}, expected={"time": len(t), "frequency": len(f)}, spec=spec)
@@ -178,6 +190,8 @@ def judge(ctx, tspec, gspecs, values, fill, dtype, all_touched_check=True):
     if all_touched_check:
         try:
             res2 = O.rasterize(gs, arr, all_touched=True, **kw)
+            if names:
+                res2 = res2.rename({names[0]: "time", names[1]: "frequency"})
         except Exception as e:
             ctx.violate_exc("raises", f"raises:all_touched:{type(e).__name__}", e, spec=spec)
             return
@@ -191,7 +205,10 @@ def judge(ctx, tspec, gspecs, values, fill, dtype, all_touched_check=True):
             owners = set()
             for gk, sk in zip(gs, gspecs):
                 try:
-                    one = O.rasterize([gk], arr, values=1, fill=0, dtype=np.float32).transpose("time", "frequency").data
+                    one = O.rasterize([gk], arr, values=1, fill=0, dtype=np.float32, **({"xdim": names[0], "ydim": names[1]} if names else {}))
+                    if names:
+                        one = one.rename({names[0]: "time", names[1]: "frequency"})
+                    one = one.transpose("time", "frequency").data
                     if (one[lost] != 0).any():
                         owners.add(sk["type"])
                 except Exception:
@@ -267,6 +284,8 @@ def run(ctx):
         t = _axis(rng, nt, rng.choice(["regular", "regular", "irregular"]), rng.choice([0.0, 0.5, 10.0]), rng.choice([1.0, 0.1, 0.01, 256 / 44100]))
         f = _axis(rng, nf, rng.choice(["regular", "regular", "irregular"]), rng.choice([0.0, 0.0, 1000.0]), rng.choice([125.0, 1000.0, 86.1328125]))
         tspec = {"time": t, "freq": f, "order": order, "content_seed": rng.getrandbits(20), "nan_content": rng.random() < 0.1}
+        if rng.random() < 0.15:
+            tspec["names"] = rng.choice([["t", "f"], ["x", "y"], ["frequency", "time"]])   # the last one swaps the usual names on purpose
         ng = rng.choice([1, 1, 2, 3, 5])
         pool = rng.choice([["BoundingBox"], list(geoms.AREAL), list(geoms.AREAL), geoms.TYPES])
         gspecs, wheres = [], []
